@@ -152,6 +152,9 @@ impl<'a> Run<'a> {
         if self.subj.is_none() || self.abort {
             return None;
         }
+        // waker index 3..5 = a freshly made waker object of task (k - 3): same task, but `will_wake` is false
+        // against the waker registered before (executors that build a new waker for every poll)
+        let fresh = (k / NW) % 2 == 1;
         let k = k % NW;
         w(|x| {
             x.poll_seq += 1;
@@ -180,7 +183,11 @@ impl<'a> Run<'a> {
             }
         });
         self.stats.polls += 1;
-        let waker = self.wakers[k].clone();
+        let waker = if fresh {
+            Waker::from(std::sync::Arc::new(TaskW(k)))
+        } else {
+            self.wakers[k].clone()
+        };
         let mut cx = Context::from_waker(&waker);
         let subj = self.subj.as_mut().unwrap();
         let r = catch_unwind(AssertUnwindSafe(|| sut(|| subj.poll(&mut cx))));
